@@ -28,6 +28,17 @@ class Gen:
         if replay is not None:
             self.replays[name] = replay
 
+    def oblige_text(self, kind, label, ok, line):
+        """an obligation decided by comparing the STRUCTURE / TEXT of the source with what the contract was reviewed against.  A match discharges
+        it; a mismatch only says that the code changed, not that the property broke: it is reported UNDECIDED (the bounded stand-ins then decide),
+        never as a violation.  Obligations with a semantic decision procedure (z3, or the real code evaluated on representatives) use oblige()."""
+        name = f"{self.key}:{kind}:{label}@L{line}"
+        if ok:
+            self.obligs.append(Oblig(name, [], z3.BoolVal(True), line, kind))
+        else:
+            self.obligs.append({"name": name, "kind": kind, "line": line, "backend": "structure", "time_s": 0.0, "status": "undecided",
+                                "reason": "the source no longer has the structure this obligation was reviewed against; whether the property still holds is not decided here"})
+
     def cover(self, label, hyps, line):
         self.obligs.append(Oblig(f"{self.key}:cover:{label}@L{line}", hyps, None, line, "cover"))
 
@@ -37,6 +48,9 @@ class Gen:
         t0 = time.time()
         first = True
         for o in self.obligs:
+            if isinstance(o, dict):
+                out["obligations"].append(o)
+                continue
             r = discharge(o, want_smt2=first and o.kind != "cover", both=both)
             if o.kind != "cover":
                 first = False
